@@ -288,3 +288,7 @@ func runOne(c *Case, r *Result, fn func()) {
 
 // Cached runs the concrete setup f (the engine reuses its result across paths).
 func Cached(key string, f func() interface{}) interface{} { return f() }
+
+// Stub redirects a function to a harness stub under the engine; natively the
+// real function runs (harnesses choose inputs that realise the same outcome).
+func Stub(name string, fn interface{}) {}
